@@ -114,8 +114,13 @@ func c20R1(p *core.Program, r *core.Report, infl *core.Func) {
 	r.Floor(rule, 2)
 	info := infl.Info()
 	var s *types.Var
-	if ps := infl.Decl.Type.Params.List; len(ps) == 1 && len(ps[0].Names) == 1 {
-		s, _ = info.ObjectOf(ps[0].Names[0]).(*types.Var)
+	// the text: the string parameter (the only parameter of the method; next to the rule after a method -> function change)
+	for _, fld := range infl.Decl.Type.Params.List {
+		for _, nme := range fld.Names {
+			if v, _ := info.ObjectOf(nme).(*types.Var); v != nil && isBasicKind(v.Type(), types.String) {
+				s = v
+			}
+		}
 	}
 	// the irregular arm: if whose init assigns from FindStringSubmatch
 	var arm *ast.IfStmt
@@ -132,6 +137,39 @@ func c20R1(p *core.Program, r *core.Report, infl *core.Func) {
 		}
 		return true
 	})
+	if arm == nil {
+		// the match taken in a statement of its own: `res := <irregular>.FindStringSubmatch(s); if len(res) >= 3 {…}`
+		ast.Inspect(infl.Body, func(n ast.Node) bool {
+			as, ok := n.(*ast.AssignStmt)
+			if !ok || res != nil || len(as.Rhs) != 1 || core.AsCall(info, as.Rhs[0], "(*regexp.Regexp).FindStringSubmatch") == nil {
+				return true
+			}
+			if fld := core.FieldOf(info, recvOf(ast.Unparen(as.Rhs[0]).(*ast.CallExpr))); fld == nil || fld.Name() != "compiledIrregular" {
+				return true
+			}
+			res = core.VarOf(info, as.Lhs[0])
+			return true
+		})
+		if res != nil {
+			ast.Inspect(infl.Body, func(n ast.Node) bool {
+				ifs, ok := n.(*ast.IfStmt)
+				if !ok || arm != nil {
+					return arm == nil
+				}
+				mentions := false
+				ast.Inspect(ifs.Cond, func(m ast.Node) bool {
+					if id, isID := m.(*ast.Ident); isID && info.ObjectOf(id) == types.Object(res) {
+						mentions = true
+					}
+					return true
+				})
+				if mentions {
+					arm = ifs
+				}
+				return true
+			})
+		}
+	}
 	if arm == nil || s == nil {
 		r.Anchor(rule, "`if res := <irregular>.FindStringSubmatch(s); ...` in (*Rule).inflected")
 		return
@@ -873,6 +911,12 @@ func c20R6(p *core.Program, r *core.Report) {
 					if ret, isRet := lit.Body.List[0].(*ast.ReturnStmt); isRet && len(ret.Results) == 1 {
 						if mc, isCall := ast.Unparen(ret.Results[0]).(*ast.CallExpr); isCall && len(mc.Args) == 1 && core.VarOf(ti, mc.Args[0]) == k && core.VarOf(ti, recvOf(mc)) == rcv && rcv != nil && k != nil {
 							return true
+						}
+						// the computation as a function of the package that takes the rule first: inflect(r, s)
+						if mc, isCall := ast.Unparen(ret.Results[0]).(*ast.CallExpr); isCall && len(mc.Args) == 2 && rcv != nil && k != nil && core.VarOf(ti, mc.Args[0]) == rcv && core.VarOf(ti, mc.Args[1]) == k {
+							if fn := core.CalleeFunc(ti, mc); fn != nil && fn.Pkg() == rcv.Pkg() {
+								return true
+							}
 						}
 					}
 				}
